@@ -21,6 +21,9 @@ pub struct PStream {
     pub window: i64,
     pub sent_off: u64,
     pub initiated_by_peer: bool,
+    /// race profile: the endpoint has reset the stream but the peer has frames "in flight": it keeps using the stream for
+    /// this many more peer ops
+    pub lag: u8,
 }
 
 #[derive(Debug, Clone)]
@@ -42,6 +45,15 @@ pub struct PeerView {
     pub queue: std::collections::VecDeque<Value>,
     /// control profile: last-stream ids of the GOAWAY frames the peer has sent
     pub goaway_lasts: Vec<u32>,
+    /// race profile: frames in flight when the endpoint resets a stream; the endpoint's concurrency limit binds the peer
+    /// only from the SETTINGS acknowledgement the peer sends
+    pub race: bool,
+    pub acked_max_streams: Option<u64>,
+    pub unacked_max_streams: Vec<Option<u64>>,
+    /// legal peers: an INCREASE of the endpoint's SETTINGS_INITIAL_WINDOW_SIZE may be used only after the peer has
+    /// acknowledged that SETTINGS frame (the endpoint enforces the old value until then); one entry per unacknowledged frame
+    pub defer_incs: bool,
+    pub unacked_window_incs: Vec<i64>,
 }
 
 #[derive(Debug, Clone)]
@@ -70,6 +82,12 @@ pub struct Profile {
     /// C08: the malformed stream is drawn from `gen_fuzz` (mutated legal frames, random frame heads, raw bytes, the
     /// chaos catalogue) and the read chunking changes all the time
     pub fuzz: bool,
+    /// C17: resets and last-handle drops at particular moments of a stream's life (final DATA blocked on the window, final
+    /// frame partly written, right after a clean close, after trailers), as short op macros executed back to back
+    pub late_reset: bool,
+    /// legal peer with races the RFC tolerates: frames still in flight for a stream the endpoint has just reset or refused,
+    /// the endpoint's SETTINGS_MAX_CONCURRENT_STREAMS binding the peer only from its acknowledgement
+    pub race: bool,
     /// the scripted peer never violates the protocol (no content-length, strictly within windows and limits)
     pub legal_peer: bool,
     /// streams are finished and every handle (request handles, send / receive halves, response and push futures, flow-control
@@ -79,10 +97,14 @@ pub struct Profile {
     /// C20: handle operations are executed from inside the transport's write / flush callback of a connection poll
     /// (`conn_poll_inject`), preferably on the stream that owns the DATA frame in flight (no extra PRNG draws for the other profiles)
     pub inject: bool,
+    /// hostile peer (C18): rapid open+RST, HEADERS floods beyond the concurrency limit, tiny / empty DATA floods, CONTINUATION
+    /// floods, oversized header lists, PING / SETTINGS floods while writes are blocked, PUSH_PROMISE and 1xx floods, frames on
+    /// forgotten streams; a slow or never-accepting application (no extra PRNG draws for the other profiles)
+    pub abuse: bool,
 }
 
 pub fn profile(name: &str) -> Profile {
-    let base = Profile { name: "mixed", w_conn_poll: 30, w_peer: 30, w_app: 40, w_io: 3, w_chaos: 0, w_end: 1, max_data: 3000, tiny_windows: false, small_limits: false, recv_heavy: false, control: false, queue: false, backpressure: false, starve: false, fuzz: false, legal_peer: false, idle: false, inject: false };
+    let base = Profile { name: "mixed", w_conn_poll: 30, w_peer: 30, w_app: 40, w_io: 3, w_chaos: 0, w_end: 1, max_data: 3000, tiny_windows: false, small_limits: false, recv_heavy: false, control: false, queue: false, backpressure: false, starve: false, fuzz: false, race: false, late_reset: false, legal_peer: false, idle: false, inject: false, abuse: false };
     match name {
         "flow" => Profile { name: "flow", tiny_windows: true, max_data: 400, w_io: 6, ..base },
         "limits" => Profile { name: "limits", small_limits: true, max_data: 200, ..base },
@@ -90,6 +112,8 @@ pub fn profile(name: &str) -> Profile {
         "chaos" => Profile { name: "chaos", w_chaos: 12, ..base },
         "reset" => Profile { name: "reset", max_data: 500, ..base },
         "shutdown" => Profile { name: "shutdown", w_end: 6, ..base },
+        "lastframe" => Profile { name: "lastframe", late_reset: true, max_data: 400, w_app: 45, w_peer: 30, w_conn_poll: 25, w_end: 0, ..base },
+        "race" => Profile { name: "race", legal_peer: true, race: true, small_limits: true, w_end: 0, max_data: 300, w_peer: 40, w_app: 30, ..base },
         "legal" => Profile { name: "legal", legal_peer: true, w_end: 0, ..base },
         "bp" => Profile { name: "bp", backpressure: true, max_data: 3000, w_io: 14, w_peer: 32, w_app: 36, w_conn_poll: 30, ..base },
         "queue" => Profile { name: "queue", small_limits: true, queue: true, max_data: 100, w_app: 55, w_peer: 25, w_conn_poll: 20, w_io: 2, ..base },
@@ -97,6 +121,7 @@ pub fn profile(name: &str) -> Profile {
         "fuzz" => Profile { name: "fuzz", fuzz: true, w_chaos: 22, w_io: 8, w_peer: 30, w_app: 25, w_conn_poll: 30, max_data: 600, ..base },
         "control" => Profile { name: "control", w_end: 2, w_io: 5, control: true, ..base },
         "inject" => Profile { name: "inject", backpressure: true, inject: true, max_data: 3000, w_io: 14, w_peer: 30, w_app: 38, w_conn_poll: 18, w_end: 0, ..base },
+        "abuse" => Profile { name: "abuse", abuse: true, w_end: 0, max_data: 300, w_app: 12, w_peer: 30, w_conn_poll: 40, w_io: 4, ..base },
         "idle" => Profile { name: "idle", idle: true, legal_peer: true, w_end: 0, max_data: 300, w_app: 50, ..base },
         _ => base,
     }
@@ -163,6 +188,15 @@ pub fn gen_config(rng: &mut Rng, client: bool, p: &Profile) -> Config {
     if rng.chance(1, 6) {
         c.peer_settings.push((1, *rng.pick(&[0u32, 100, 4096, 10000])));
     }
+    if p.abuse {
+        c.max_concurrent_streams = Some(*rng.pick(&[1u32, 2, 5, 20]));
+        c.max_concurrent_reset_streams = Some(*rng.pick(&[0usize, 1, 3, 10]));
+        c.max_pending_accept_reset_streams = Some(*rng.pick(&[0usize, 1, 3, 20]));
+        c.max_local_error_reset_streams = Some(*rng.pick(&[Some(0usize), Some(2), Some(10), Some(1024), None]));
+        c.reset_stream_duration_ms = Some(*rng.pick(&[0u64, 1, 30000]));
+        c.max_header_list_size = *rng.pick(&[None, Some(100u32), Some(1000)]);
+        if client { c.enable_push = Some(rng.chance(3, 4)); }
+    }
     c
 }
 
@@ -182,6 +216,11 @@ impl PeerView {
             ep_max_streams: cfg.max_concurrent_streams.map(|v| v as u64),
             queue: std::collections::VecDeque::new(),
             goaway_lasts: vec![],
+            race: false,
+            acked_max_streams: None,
+            unacked_max_streams: vec![],
+            defer_incs: false,
+            unacked_window_incs: vec![],
         }
     }
 
@@ -196,12 +235,22 @@ impl PeerView {
                 "SETTINGS" => {
                     if f["ack"].as_bool() != Some(true) {
                         self.settings_to_ack += 1;
+                        if self.race {
+                            let m = f["params"].as_array().and_then(|ps| ps.iter().filter(|p| p[0].as_u64() == Some(3)).last().map(|p| p[1].as_u64().unwrap_or(0)));
+                            self.unacked_max_streams.push(m);
+                        }
+                        if self.defer_incs { self.unacked_window_incs.push(0); }
                         if let Some(ps) = f["params"].as_array() {
                             for p in ps {
                                 let id = p[0].as_u64().unwrap_or(0);
                                 let v = p[1].as_u64().unwrap_or(0) as i64;
                                 if id == 4 {
                                     let delta = v - self.ep_init_window;
+                                    if self.defer_incs && delta > 0 {
+                                        // usable from the acknowledgement on
+                                        if let Some(x) = self.unacked_window_incs.last_mut() { *x += delta; }
+                                        continue;
+                                    }
                                     self.ep_init_window = v;
                                     for s in self.streams.iter_mut() {
                                         s.window += delta;
@@ -240,14 +289,14 @@ impl PeerView {
                         }
                         None => {
                             if local_init {
-                                self.streams.push(PStream { sid, peer_open: true, ep_open: !eos, reset: false, peer_head_sent: false, window: self.ep_init_window, sent_off: 0, initiated_by_peer: false });
+                                self.streams.push(PStream { sid, peer_open: true, ep_open: !eos, reset: false, peer_head_sent: false, window: self.ep_init_window, sent_off: 0, initiated_by_peer: false, lag: 0 });
                             }
                         }
                     }
                 }
                 "PUSH_PROMISE" => {
                     let promised = f["promised"].as_u64().unwrap_or(0) as u32;
-                    self.streams.push(PStream { sid: promised, peer_open: false, ep_open: true, reset: false, peer_head_sent: true, window: 0, sent_off: 0, initiated_by_peer: false });
+                    self.streams.push(PStream { sid: promised, peer_open: false, ep_open: true, reset: false, peer_head_sent: true, window: 0, sent_off: 0, initiated_by_peer: false, lag: 0 });
                 }
                 "DATA" => {
                     if f["eos"].as_bool() == Some(true) {
@@ -257,7 +306,14 @@ impl PeerView {
                     }
                 }
                 "RST_STREAM" => {
+                    let race = self.race;
+                    let odd = self.seen_out % 2 == 1;
                     if let Some(s) = self.streams.iter_mut().find(|s| s.sid == sid) {
+                        if race && odd && !s.reset && s.lag == 0 {
+                            // frames in flight: the peer learns of the reset a little later
+                            s.lag = 2;
+                            continue;
+                        }
                         s.reset = true;
                         s.ep_open = false;
                         s.peer_open = false;
@@ -302,7 +358,25 @@ fn resp_block(rng: &mut Rng, status: u32) -> Vec<u8> {
 pub fn gen_peer(rng: &mut Rng, d: &Driver, pv: &mut PeerView, p: &Profile) -> Option<Value> {
     let client = d.cfg.role_client;
     // owed acknowledgements first (with high probability)
-    if pv.settings_to_ack > 0 && rng.chance(3, 4) {
+    if p.race {
+        for s in pv.streams.iter_mut() {
+            if s.lag > 0 && rng.chance(1, 3) {
+                s.lag -= 1;
+                if s.lag == 0 { s.reset = true; s.ep_open = false; s.peer_open = false; }
+            }
+        }
+    }
+    if pv.settings_to_ack > 0 && rng.chance(if p.race { 1 } else { 3 }, 4) {
+        if p.race && !pv.unacked_max_streams.is_empty() {
+            if let Some(m) = pv.unacked_max_streams.remove(0) { pv.acked_max_streams = Some(m); }
+        }
+        if pv.defer_incs && !pv.unacked_window_incs.is_empty() {
+            let delta = pv.unacked_window_incs.remove(0);
+            if delta != 0 {
+                pv.ep_init_window += delta;
+                for s in pv.streams.iter_mut() { s.window += delta; }
+            }
+        }
         pv.settings_to_ack -= 1;
         return Some(peer_bytes(wire::settings_ack(), json!({"t":"SETTINGS","ack":true})));
     }
@@ -325,7 +399,8 @@ pub fn gen_peer(rng: &mut Rng, d: &Driver, pv: &mut PeerView, p: &Profile) -> Op
             if !client {
                 if p.legal_peer {
                     let open = pv.streams.iter().filter(|s| s.initiated_by_peer && !s.reset && (s.peer_open || s.ep_open)).count() as u64;
-                    if let Some(m) = pv.ep_max_streams { if open >= m { return None; } }
+                    let lim = if p.race { pv.acked_max_streams } else { pv.ep_max_streams };
+                    if let Some(m) = lim { if open >= m { return None; } }
                 }
                 let sid = pv.next_peer_sid;
                 pv.next_peer_sid += 2;
@@ -333,7 +408,7 @@ pub fn gen_peer(rng: &mut Rng, d: &Driver, pv: &mut PeerView, p: &Profile) -> Op
                 let cl = if !p.legal_peer && !eos && rng.chance(1, 4) { Some(rng.range(0, 600)) } else { None };
                 let block = req_block(rng, cl);
                 let split = if rng.chance(1, 6) { rng.range(5, 40) as usize } else { 0 };
-                pv.streams.push(PStream { sid, peer_open: !eos, ep_open: true, reset: false, peer_head_sent: true, window: pv.ep_init_window, sent_off: 0, initiated_by_peer: true });
+                pv.streams.push(PStream { sid, peer_open: !eos, ep_open: true, reset: false, peer_head_sent: true, window: pv.ep_init_window, sent_off: 0, initiated_by_peer: true, lag: 0 });
                 return Some(peer_bytes(wire::headers(sid, &block, eos, split), json!({"t":"HEADERS","sid":sid,"eos":eos,"cl":cl})));
             } else if d.cfg.enable_push != Some(false) && rng.chance(1, 3) {
                 // PUSH_PROMISE on a live client-initiated stream
@@ -348,7 +423,7 @@ pub fn gen_peer(rng: &mut Rng, d: &Driver, pv: &mut PeerView, p: &Profile) -> Op
                         (b":path".to_vec(), b"/pushed".to_vec()),
                         (b":authority".to_vec(), b"example.com".to_vec()),
                     ]);
-                    pv.streams.push(PStream { sid, peer_open: true, ep_open: false, reset: false, peer_head_sent: false, window: pv.ep_init_window, sent_off: 0, initiated_by_peer: true });
+                    pv.streams.push(PStream { sid, peer_open: true, ep_open: false, reset: false, peer_head_sent: false, window: pv.ep_init_window, sent_off: 0, initiated_by_peer: true, lag: 0 });
                     return Some(peer_bytes(wire::push_promise(parent, sid, &block), json!({"t":"PUSH_PROMISE","sid":parent,"promised":sid})));
                 }
             }
@@ -723,6 +798,148 @@ pub fn gen_app(rng: &mut Rng, d: &Driver, p: &Profile) -> Option<Value> {
     Some(opts.swap_remove(i))
 }
 
+/// Hostile peer moves (profile "abuse").  One op may carry a whole burst of frames.
+pub fn gen_abuse(rng: &mut Rng, d: &Driver, pv: &mut PeerView) -> Option<Value> {
+    let client = d.cfg.role_client;
+    let live: Vec<usize> = pv.streams.iter().enumerate().filter(|(_, s)| !s.reset && s.peer_open).map(|(i, _)| i).collect();
+    let k = rng.below(100);
+    let burst = *rng.pick(&[1u64, 2, 5, 12, 30, 120]);
+    let mut bytes: Vec<u8> = vec![];
+    let what: Value;
+    let req = |rng: &mut Rng| req_block(rng, None);
+    match k {
+        0..=17 if !client => {
+            // rapid open + RST_STREAM
+            let first = pv.next_peer_sid;
+            for _ in 0..burst {
+                let sid = pv.next_peer_sid;
+                pv.next_peer_sid += 2;
+                bytes.extend(wire::headers(sid, &req(rng), rng.chance(1, 2), 0));
+                bytes.extend(wire::rst_stream(sid, *rng.pick(&[8u32, 0, 2])));
+                pv.streams.push(PStream { sid, peer_open: false, ep_open: false, reset: true, peer_head_sent: true, window: 0, sent_off: 0, initiated_by_peer: true, ..Default::default() });
+            }
+            what = json!({"abuse":"open-rst","n":burst,"first":first});
+        }
+        18..=29 if !client => {
+            // HEADERS flood (beyond the concurrency limit when the burst is large)
+            let first = pv.next_peer_sid;
+            for _ in 0..burst {
+                let sid = pv.next_peer_sid;
+                pv.next_peer_sid += 2;
+                let eos = rng.chance(1, 2);
+                bytes.extend(wire::headers(sid, &req(rng), eos, 0));
+                pv.streams.push(PStream { sid, peer_open: !eos, ep_open: true, reset: false, peer_head_sent: true, window: pv.ep_init_window, sent_off: 0, initiated_by_peer: true, ..Default::default() });
+            }
+            what = json!({"abuse":"headers-flood","n":burst,"first":first});
+        }
+        0..=14 if client => {
+            // PUSH_PROMISE flood on a live request
+            let cands: Vec<usize> = live.iter().copied().filter(|&i| !pv.streams[i].initiated_by_peer).collect();
+            let i = *cands.first()?;
+            let parent = pv.streams[i].sid;
+            let first = pv.next_peer_sid;
+            let block = wire::hpack_literal(&[(b":method".to_vec(), b"GET".to_vec()), (b":scheme".to_vec(), b"https".to_vec()),
+                                              (b":path".to_vec(), b"/p".to_vec()), (b":authority".to_vec(), b"example.com".to_vec())]);
+            for _ in 0..burst {
+                let sid = pv.next_peer_sid;
+                pv.next_peer_sid += 2;
+                bytes.extend(wire::push_promise(parent, sid, &block));
+                pv.streams.push(PStream { sid, peer_open: true, ep_open: false, reset: false, peer_head_sent: false, window: pv.ep_init_window, sent_off: 0, initiated_by_peer: true, ..Default::default() });
+            }
+            what = json!({"abuse":"push-flood","n":burst,"parent":parent,"first":first});
+        }
+        15..=29 if client => {
+            // 1xx flood on a request whose response has not started
+            let cands: Vec<usize> = live.iter().copied().filter(|&i| !pv.streams[i].initiated_by_peer && !pv.streams[i].peer_head_sent).collect();
+            let i = *cands.first()?;
+            let sid = pv.streams[i].sid;
+            let block = wire::hpack_literal(&[(b":status".to_vec(), b"103".to_vec())]);
+            for _ in 0..burst { bytes.extend(wire::headers(sid, &block, false, 0)); }
+            what = json!({"abuse":"info-flood","n":burst,"sid":sid});
+        }
+        30..=44 => {
+            // tiny or empty DATA frames on a stream that may carry DATA
+            let cands: Vec<usize> = live.iter().copied().filter(|&i| pv.streams[i].peer_head_sent).collect();
+            if cands.is_empty() { return None; }
+            let i = *rng.pick(&cands);
+            let empty = rng.chance(1, 2);
+            let mut n = 0u64;
+            for _ in 0..burst {
+                let len: u64 = if empty { 0 } else { rng.range(1, 3) };
+                if !empty && (pv.streams[i].window < len as i64 || pv.conn_window < len as i64) { break; }
+                let s = &mut pv.streams[i];
+                let body: Vec<u8> = (0..len).map(|j| driver::pattern(s.sid, 1, s.sent_off + j)).collect();
+                s.sent_off += len;
+                s.window -= len as i64;
+                pv.conn_window -= len as i64;
+                bytes.extend(wire::data(s.sid, &body, false, None));
+                n += 1;
+            }
+            if n == 0 { return None; }
+            what = json!({"abuse": if empty {"empty-data"} else {"tiny-data"},"n":n,"sid":pv.streams[i].sid});
+        }
+        45..=54 => {
+            // CONTINUATION flood: HEADERS without END_HEADERS, then many small CONTINUATION frames, sometimes never finished
+            let sid = if client { match live.iter().copied().find(|&i| !pv.streams[i].initiated_by_peer) { Some(i) => pv.streams[i].sid, None => return None } }
+                      else { let s = pv.next_peer_sid; pv.next_peer_sid += 2; s };
+            let block = if client { wire::hpack_literal(&[(b":status".to_vec(), b"200".to_vec())]) } else { req(rng) };
+            bytes.extend(wire::frame(wire::HEADERS, 0, sid, &block));
+            let fill = wire::hpack_literal(&[(b"x-a".to_vec(), vec![b'c'; rng.range(0, 20) as usize])]);
+            for _ in 0..burst { bytes.extend(wire::frame(wire::CONTINUATION, 0, sid, if rng.chance(1, 2) { &[] } else { &fill })); }
+            let finish = rng.chance(2, 3);
+            if finish { bytes.extend(wire::frame(wire::CONTINUATION, wire::FLAG_END_HEADERS, sid, &[])); }
+            if !client { pv.streams.push(PStream { sid, peer_open: true, ep_open: true, reset: false, peer_head_sent: true, window: pv.ep_init_window, sent_off: 0, initiated_by_peer: true, ..Default::default() }); }
+            else if let Some(s) = pv.streams.iter_mut().find(|s| s.sid == sid) { s.peer_head_sent = true; }
+            what = json!({"abuse":"continuation-flood","n":burst,"sid":sid,"finished":finish});
+        }
+        55..=62 => {
+            // oversized header list
+            let sid = if client { match live.iter().copied().find(|&i| !pv.streams[i].initiated_by_peer && !pv.streams[i].peer_head_sent) { Some(i) => pv.streams[i].sid, None => return None } }
+                      else { let s = pv.next_peer_sid; pv.next_peer_sid += 2; s };
+            let mut f: Vec<(Vec<u8>, Vec<u8>)> = if client { vec![(b":status".to_vec(), b"200".to_vec())] } else {
+                vec![(b":method".to_vec(), b"GET".to_vec()), (b":scheme".to_vec(), b"https".to_vec()), (b":path".to_vec(), b"/x".to_vec()), (b":authority".to_vec(), b"example.com".to_vec())] };
+            for j in 0..rng.range(5, 60) { f.push((format!("x-big-{}", j).into_bytes(), vec![b'z'; 100])); }
+            bytes.extend(wire::headers(sid, &wire::hpack_literal(&f), false, 0));
+            if !client { pv.streams.push(PStream { sid, peer_open: true, ep_open: true, reset: false, peer_head_sent: true, window: pv.ep_init_window, sent_off: 0, initiated_by_peer: true, ..Default::default() }); }
+            else if let Some(s) = pv.streams.iter_mut().find(|s| s.sid == sid) { s.peer_head_sent = true; }
+            what = json!({"abuse":"oversized-headers","sid":sid});
+        }
+        63..=74 => {
+            // PING / SETTINGS flood (often while writes are blocked: see the io ops of this profile)
+            for j in 0..burst {
+                if rng.chance(2, 3) { bytes.extend(wire::ping(false, [j as u8, 1, 2, 3, 4, 5, 6, rng.byte()])); }
+                else { bytes.extend(wire::settings(&[(4, *rng.pick(&[65535u32, 1000, 70000]))])); pv.settings_to_ack += 0; }
+            }
+            what = json!({"abuse":"ping-settings-flood","n":burst});
+        }
+        75..=86 => {
+            // frames on streams the endpoint has already forgotten / that were reset
+            let old: Vec<u32> = pv.streams.iter().filter(|s| s.reset || (!s.peer_open && !s.ep_open)).map(|s| s.sid).collect();
+            if old.is_empty() { return None; }
+            for _ in 0..burst.min(12) {
+                let sid = *rng.pick(&old);
+                if rng.chance(1, 2) { bytes.extend(wire::data(sid, b"x", false, None)); pv.conn_window -= 1; }
+                else { bytes.extend(wire::window_update(sid, 1)); }
+            }
+            what = json!({"abuse":"frames-on-closed","n":burst.min(12)});
+        }
+        _ => {
+            // RST_STREAM of live streams (accepted or not)
+            if live.is_empty() { return None; }
+            let mut n = 0;
+            for &i in live.iter().take(burst as usize) {
+                let s = &mut pv.streams[i];
+                s.reset = true;
+                s.peer_open = false;
+                bytes.extend(wire::rst_stream(s.sid, 8));
+                n += 1;
+            }
+            what = json!({"abuse":"rst-live","n":n});
+        }
+    }
+    Some(json!({"op":"peer","what":what,"bytes":bytes}))
+}
+
 /// Every handle part that still exists, as the op that drops it (profile "idle").
 pub fn drop_candidates(d: &Driver, with_sr: bool) -> Vec<Value> {
     let mut c: Vec<Value> = vec![];
@@ -906,7 +1123,7 @@ pub fn gen_control(rng: &mut Rng, d: &Driver, pv: &mut PeerView) -> Option<Value
                 let sid = pv.next_peer_sid + 2 * rng.below(3) as u32;
                 pv.next_peer_sid = sid + 2;
                 let block = req_block(rng, None);
-                pv.streams.push(PStream { sid, peer_open: false, ep_open: true, reset: false, peer_head_sent: true, window: pv.ep_init_window, sent_off: 0, initiated_by_peer: true });
+                pv.streams.push(PStream { sid, peer_open: false, ep_open: true, reset: false, peer_head_sent: true, window: pv.ep_init_window, sent_off: 0, initiated_by_peer: true, lag: 0 });
                 return Some(peer_bytes(wire::headers(sid, &block, true, 0), json!({"t":"HEADERS","sid":sid,"eos":true,"cl":null})));
             }
             None
@@ -968,6 +1185,8 @@ pub fn gen_inject(rng: &mut Rng, d: &Driver, p: &Profile) -> Value {
 /// Generate and run `steps` ops; returns nothing (the trace is in `d.trace`).
 pub fn run_random(d: &mut Driver, rng: &mut Rng, p: &Profile, steps: usize) {
     let mut pv = PeerView::new(&d.cfg);
+    pv.race = p.race;
+    pv.defer_incs = p.legal_peer;
     let mut ended = false;
     let mut done = 0usize;
     let mut tries = 0usize;
@@ -980,6 +1199,40 @@ pub fn run_random(d: &mut Driver, rng: &mut Rng, p: &Profile, steps: usize) {
             d.exec(&op);
             done += 1;
             continue;
+        }
+        if p.late_reset {
+            if let Some(op) = pv.queue.pop_front() {
+                log_op(&op);
+                d.exec(&op);
+                done += 1;
+                continue;
+            }
+            if rng.chance(1, 7) {
+                let nh = d.handles.len();
+                let cands: Vec<usize> = (0..nh).filter(|&i| d.handles[i].send.is_some() && !d.handles[i].send_done).collect();
+                let resp: Vec<usize> = (0..nh).filter(|&i| d.handles[i].respond.is_some() && d.handles[i].send.is_none() && !d.handles[i].send_done).collect();
+                if !cands.is_empty() {
+                    let h = *rng.pick(&cands);
+                    let code = *rng.pick(&[8u32, 0, 2, 11, 0xdead_beef]);
+                    let big = rng.range(70000, 100000);
+                    let m: Vec<Value> = match rng.below(6) {
+                        0 => vec![json!({"op":"send_data","h":h,"len":big,"eos":true}), json!({"op":"send_reset","h":h,"code":code})],
+                        1 => vec![json!({"op":"send_data","h":h,"len":big,"eos":true}), json!({"op":"conn_poll"}), json!({"op":"send_reset","h":h,"code":code})],
+                        2 => vec![json!({"op":"write_mode","mode":"budget","n":rng.range(3, 40)}), json!({"op":"send_data","h":h,"len":rng.range(100, 3000),"eos":true}),
+                                  json!({"op":"conn_poll"}), json!({"op":"send_reset","h":h,"code":code}), json!({"op":"write_mode","mode":"all"})],
+                        3 => vec![json!({"op":"send_data","h":h,"len":rng.range(0, 50),"eos":true}), json!({"op":"conn_poll"}), json!({"op":"send_reset","h":h,"code":code})],
+                        4 => vec![json!({"op":"send_trailers","h":h}), json!({"op":"send_reset","h":h,"code":code})],
+                        _ => vec![json!({"op":"send_data","h":h,"len":big,"eos":true}), json!({"op":"drop_send","h":h}), json!({"op":"drop_response","h":h}),
+                                  json!({"op":"drop_recv","h":h}), json!({"op":"drop_respond","h":h})],
+                    };
+                    pv.queue.extend(m);
+                    continue;
+                } else if !resp.is_empty() {
+                    let h = *rng.pick(&resp);
+                    pv.queue.push_back(json!({"op":"send_response","h":h,"eos":false,"status":200}));
+                    continue;
+                }
+            }
         }
         if p.control {
             if let Some(op) = pv.queue.pop_front() {
@@ -994,6 +1247,23 @@ pub fn run_random(d: &mut Driver, rng: &mut Rng, p: &Profile, steps: usize) {
                     d.exec(&op);
                     done += 1;
                 }
+                continue;
+            }
+        }
+        if p.abuse {
+            if rng.chance(1, 2) {
+                if let Some(op) = gen_abuse(rng, d, &mut pv) {
+                    log_op(&op);
+                    d.exec(&op);
+                    done += 1;
+                }
+                continue;
+            }
+            if rng.chance(1, 12) {
+                // write back-pressure: blocked for a while, then released
+                let op = if rng.chance(2, 3) { json!({"op":"write_mode","mode":"budget","n":0}) } else { json!({"op":"write_mode","mode":"all"}) };
+                d.exec(&op);
+                done += 1;
                 continue;
             }
         }
